@@ -280,11 +280,11 @@ def run(ck):
 
     serial = [0]
 
-    def cl(kind, p, halt_at, cmds=None, extra=()):
+    def cl(kind, p, halt_at, cmds=None, extra=(), fuel=FUEL):
         # every case gets its own script file: cases run in parallel and the harness removes the file
         serial[0] += 1
         src = None if p[5] is None else "%s.%d.ds" % (p[5], serial[0])
-        return "\t".join([G.case_line(kind, src, halt_at, FUEL, p[0], cmds if cmds is not None else p[1], p[2],
+        return "\t".join([G.case_line(kind, src, halt_at, fuel, p[0], cmds if cmds is not None else p[1], p[2],
                                       G.render(p[0], p[3], p[4]))] + list(extra))
 
     # un-halted behaviour of every base program: final result (if it ends) and the first PROBE steps
@@ -319,6 +319,23 @@ def run(ck):
         if b % 7 == 0:
             cases.append((cl("P", p, 0), b, ulog, p[1]))
             stats["preset_flag"] += 1
+    # late boundaries: the flag raised by the k-th invocation of a program that never ends by itself, for k around 2^10 and 2^11
+    # (seed C13-w7-m2: after 1024 executed instructions the flag was polled on backward jumps only)
+    endless = [b for b in range(len(base)) if fin[b].split("\t")[0] == "FUEL"][:(120 if thorough else 40)]
+    late_probe = ck.model(["\t".join(["I", G.enc_opt(base[b][5]), "2200", G.enc_prog(base[b][0]), G.enc_cmds(base[b][1]), G.enc_vars(base[b][2])])
+                           for b in endless]) if endless else []
+    stats["late_boundaries"] = 0
+    for b, pr_ in zip(endless, late_probe):
+        pr = pr_.split("\t")
+        if pr[0] != "CFG":
+            continue
+        ulog = log_entries(pr[4])
+        for k in (1022, 1023, 1024, 1025, 1026, 1100, 2047, 2050):
+            if k < len(ulog):
+                c2 = mark_kth(base[b][1], ulog, k)
+                if c2 is not None:
+                    cases.append((cl("P" if k % 2 else "Q", base[b], None, c2, fuel=3000), b, ulog, c2))
+                    stats["late_boundaries"] += 1
     for k in range(4000 if thorough else 800):
         lines, cmds, vars_, blanks, sp = G.rand_program(rng, allow_halt=True, cyclic_p=0.4)
         p = (lines, cmds, vars_, blanks, sp, None)
